@@ -10,13 +10,16 @@ MAP={'pushBack':('Gen.push_back','tie_push_back',1,'PushPop'),'pushFront':('Gen.
  'clear':('Gen.clear','tie_clear',0,'Truncate'),'get?':('Gen.get','tie_get',1,'Access'),'front?':('Gen.front','tie_front',0,'Access'),
  'back?':('Gen.back','tie_back',0,'Access'),
  'remove':('Gen.remove','tie_remove',1,'Remove'),'makeContiguous':('Gen.make_contiguous','tie_make_contiguous',0,'Remove'),
- 'dropRange':('Gen.drop_range','tie_drop_range',2,'Truncate'),'nthBack?':('Gen.nth_back','tie_nth_back',1,'Access'),
+ 'dropRange':('Gen.drop_range','tie_drop_range',2,'Truncate'),
+ 'IterOverRange':('Gen.Iter_over_range','tie_iter_over_range',2,'IterTie'),'IterNew':('Gen.Iter_new','tie_iter_new',0,'IterTie'),
+ 'translateRange':('Gen.translate_range_bounds','tie_translate_range_bounds',2,'IterTie'),'nthBack?':('Gen.nth_back','tie_nth_back',1,'Access'),
 }
 WANT={'C01':['C01_push_back','C01_push_front','C01_try_push_back','C01_try_push_front','C01_pop_back','C01_pop_front','C01_swap','C01_swap_remove_back','C01_swap_remove_front','C01_truncate_back','C01_truncate_front','C01_clear','C01_remove','C01_make_contiguous'],
  'C02':['C02_push_back','C02_push_front','C02_try_push_back','C02_try_push_front'],
  'C07':['C07_get','C07_front','C07_back','C07_nth_back','C07_make_contiguous'],
+ 'C08':['C08_over_range','C08_whole'],
  'C05':['C05_drop_range','C05_truncate_back','C05_truncate_front','C05_clear'],
- 'C11':['C11_swap_ok','C11_swap_panics_i','C11_swap_panics_j'],
+ 'C11':['C11_swap_ok','C11_swap_panics_i','C11_swap_panics_j','C11_range_ok','C11_range_panics'],
  'C20':['C20_push_back','C20_push_front','C20_pop_back','C20_pop_front','C20_swap','C20_remove','C20_truncate','C20_make_contiguous'],
  'C04':['C04_push_back','C04_push_front','C04_pop_back','C04_pop_front','C04_swap_remove_back','C04_remove'],
 }
@@ -26,7 +29,8 @@ DOC = {
  'C04': 'behaviour is independent of the physical layout',
  'C07': 'element access returns the element at that logical position',
  'C05': 'a panicking element destructor never causes a second drop or a corrupt buffer',
- 'C11': 'documented panics of `swap`',
+ 'C11': 'documented panics of `swap` and of the range translation',
+ 'C08': 'iterators over a range / the whole buffer visit exactly the specified slots',
  'C20': 'O(1) operations touch O(1) slots',
 }
 for pid,names in WANT.items():
@@ -59,6 +63,7 @@ for pid,names in WANT.items():
                 return MAP[w][0]
             return w
         stmt=re.sub(r"(?<![\w.])dropRange (\w+) (\w+)", r"dropRange (\1, \2)", stmt)
+        stmt=stmt.replace("Iter.overRange","IterOverRange").replace("Iter.new","IterNew")
         stmt2=re.sub(r"(?<![\w.])[A-Za-z][A-Za-z0-9]*\??(?![\w?])",rep,stmt)
         if not used: print("no model fn in",n); continue
         sys_vars=[x for x,ty,_ in bn if ty=='Sys']
@@ -70,10 +75,15 @@ for pid,names in WANT.items():
         for u in used:
             g,t,k,grp=MAP[u]; groups.add(grp)
             for sv in sys_vars:
-                if sv in inv:
+                if t == 'tie_translate_range_bounds':
+                    rws.append(f"{t} {'_ '*k}{sv}")
+                elif sv in inv:
                     rws.append(f"{t} {'_ '*k}{sv} {inv[sv]}")
         args=' '.join(x for x,ty,impl in bn if not impl)
         rw=', '.join(rws)
+        if not inv and 'translateRange' in used:
+            out.append(f"theorem {n}_src{binders.rstrip()} :{stmt2.rstrip()} := by\n  rw [{', '.join(rws)}]; exact {n} {args}")
+            continue
         if not inv:
             # no invariant among the hypotheses (documented panics of `swap`): the tie on all states
             out.append(f"theorem {n}_src{binders.rstrip()} :{stmt2.rstrip()} := by\n  rw [tie_swap_all]; exact {n} {args}")
